@@ -86,6 +86,15 @@ def _occurs(sep, x, guards, depth=0):
                          and isinstance(t.args[0], ast.Constant) and t.args[0].value == s1 for t, p in guards)
             if starts and _occurs(sep, y, guards, depth + 1):
                 return True
+    # x = Y[1:] with Y.startswith(c), c one character that sep does not begin with: same argument
+    if isinstance(x, ast.Subscript) and isinstance(x.slice, ast.Slice) and x.slice.upper is None and x.slice.step is None \
+            and isinstance(x.slice.lower, ast.Constant) and x.slice.lower.value == 1:
+        y = x.value
+        for t, p in guards:
+            if p and isinstance(t, ast.Call) and isinstance(t.func, ast.Attribute) and t.func.attr == "startswith" and norm(t.func.value) == norm(y) and t.args \
+                    and isinstance(t.args[0], ast.Constant) and isinstance(t.args[0].value, str) and len(t.args[0].value) == 1 and sep[0] != t.args[0].value:
+                if _occurs(sep, y, guards, depth + 1):
+                    return True
     return False
 
 
